@@ -56,6 +56,9 @@ def gen_history(rng, max_commits=25):
     # commit times: minutes apart, or spread over days (always inside the 30-day window)
     step = 60 if rng.random() < 0.6 else rng.randint(3600, (29 * 86400) // n)
     ci_tags = rng.random() < 0.25     # the project uses its own build tag format
+    # ... or the standard one with release names that are no identifiers (major.minor then come from VERSION)
+    dotted_tags = not ci_tags and rng.random() < 0.15
+    files = {"VERSION": "7.%d" % rng.randint(0, 3)} if dotted_tags else {}
     for cid in ids:
         earlier = ids[:cid - 1]
         if not earlier or rng.random() < 0.07:
@@ -73,7 +76,7 @@ def gen_history(rng, max_commits=25):
             msg = "misc %d\n\nrelated to BUG-7 fix" % cid
         else:
             msg = "misc %d" % cid
-        commits[cid] = mg.Commit("r", cid, [commits[p] for p in ps], msg, base + cid * step, {})
+        commits[cid] = mg.Commit("r", cid, [commits[p] for p in ps], msg, base + cid * step, files)
     names = rng.sample(BRANCH_NAMES, rng.randint(1, 4))
     if "origin/master" in names and "origin/main" in names:
         names.remove("origin/main")
@@ -95,6 +98,8 @@ def gen_history(rng, max_commits=25):
                 if rng.random() < 0.04:
                     bn = max(bn, rng.choice([8887, 8888, 9998, 9999]))   # numbers that look like the reserved ones
                 rel = f"release_{rng.randint(1, 3)}_{rng.randint(0, 3)}"
+                if dotted_tags:
+                    rel = rng.choice(["release-%d.%d", "release/%d.%d", "rel.%d-%d"]) % (rng.randint(1, 3), rng.randint(0, 3))
                 tags[f"ci-{bn}-{rel}-ok" if ci_tags else f"build_{bn}_{rel}_success"] = cid
     return mg.Repo("r", commits, heads, tags)
 
@@ -266,8 +271,18 @@ def run_shard(ctx):
         texts = rng.sample(TEXTS, rng.randint(1, 3))
         # half of the histories are reported by ONE long-lived collection asked for several texts
         shared = ReposCollection({'r': mg.repo_for('r', repo)}) if rng.random() < 0.5 else None
+        late_tags = []
         for k, text in enumerate(texts):
-            judge(ctx, repo, text, {"repo": descr, "text": text, "earlier_texts_on_same_collection":
+            if shared is not None and k and rng.random() < 0.5:
+                # between two reports of the long-lived collection new build tags arrive (as after a fetch)
+                fmt = "ci-%d-release_1_1-ok" if any(t.startswith("ci-") for t in repo.tags) else "build_%d_release_1_1_success"
+                name = fmt % (20000 + k)
+                repo.add_tag(name, rng.choice(sorted(repo.commits)))
+                late_tags.append(name)
+                descr = mg.describe(repo)
+                ctx.count("tags_added_between_reports_of_one_collection")
+            judge(ctx, repo, text, {"repo": descr, "text": text, "late_tags": list(late_tags),
+                                    "earlier_texts_on_same_collection":
                                     texts[:k] if shared is not None else []}, shared)
         if i < 2:
             ctx.sample({"commits": [[c[0], c[1], c[2][:20]] for c in descr["commits"]],
@@ -276,7 +291,10 @@ def run_shard(ctx):
 
 def replay(ctx, case):
     logging.disable(logging.CRITICAL)
-    repo = mg.rebuild(case["repo"])
+    descr = dict(case["repo"])
+    late = {t: cid for t, cid in descr["tags"].items() if t in (case.get("late_tags") or [])}
+    descr["tags"] = {t: cid for t, cid in descr["tags"].items() if t not in late}
+    repo = mg.rebuild(descr)
     earlier = case.get("earlier_texts_on_same_collection") or []
     shared = None
     if earlier:
@@ -284,4 +302,6 @@ def replay(ctx, case):
         for t in earlier:
             shared.make_reports_data(t)
             shared.make_report(t)
+    for t, cid in late.items():
+        repo.add_tag(t, cid)
     judge(ctx, repo, case["text"], case, shared)
